@@ -53,14 +53,18 @@ template <typename P> void dumpTables(vio::Out & o, const P & p, size_t S, size_
 void c09_grad(const std::string & kind, vio::Cursor & c, vio::Out & o) {
     // ops: "u s" = stepUpdateP(s); wolf setters "w v" "l v" "s v" = setDeltaW/setDeltaL/setScaling;
     //      pga setters "r v" "p v" = setLearningRate/setPredictionLength (throw when v < 0)
-    struct Op { char k; size_t s; double v; };
+    //      pga Q writes "q s a v" = q(s,a) = v;  "z s a v" = q(s,a) = (sum_{b != a} p(s,b) q(s,b)) / (1 - p(s,a)) + v
+    //      (the value that gives action a a gradient of about v: it is printed, the driver reads it)
+    struct Op { char k; size_t s; double v; size_t a; };
     auto readOps = [&](vio::Cursor & cc) {
         const size_t nops = cc.nextSize();
         std::vector<Op> ops;
         for (size_t k = 0; k < nops; ++k) {
             const std::string t = cc.next();
-            Op op{t[0], 0, 0.0};
-            if (t == "u") op.s = cc.nextSize(); else op.v = cc.nextDouble();
+            Op op{t[0], 0, 0.0, 0};
+            if (t == "u") op.s = cc.nextSize();
+            else if (t == "q" || t == "z") { op.s = cc.nextSize(); op.a = cc.nextSize(); op.v = cc.nextDouble(); }
+            else op.v = cc.nextDouble();
             ops.push_back(op);
         }
         return ops;
@@ -96,6 +100,17 @@ void c09_grad(const std::string & kind, vio::Cursor & c, vio::Out & o) {
         dumpTables(o, p, S, A);
         for (const auto & op : ops) {
             if (op.k == 'u') p.stepUpdateP(op.s);
+            else if (op.k == 'q' || op.k == 'z') {
+                double v = op.v;
+                if (op.k == 'z') {
+                    const double pa = p.getActionProbability(op.s, op.a);
+                    double others = 0.0;
+                    for (size_t b = 0; b < A; ++b) if (b != op.a) others += p.getActionProbability(op.s, b) * q(op.s, b);
+                    v = (pa < 1.0 ? others / (1.0 - pa) : 0.0) + op.v;
+                }
+                q(op.s, op.a) = v;                  // the policy holds a reference to q
+                o << v;
+            }
             else {
                 bool thrown = false;
                 try { if (op.k == 'r') p.setLearningRate(op.v); else p.setPredictionLength(op.v); }
@@ -111,8 +126,11 @@ void c09_grad(const std::string & kind, vio::Cursor & c, vio::Out & o) {
         for (size_t s = 0; s < S; ++s) for (size_t a = 0; a < A; ++a) m(s, a) = c.nextDouble();
         const unsigned seed = (unsigned) c.nextSize();
         Seeder::setRootSeed(seed);
-        MDP::Policy p(m);
-        dumpTables(o, p, S, A);
-        for (size_t s = 0; s < S; ++s) { o << peekU(p.rand_); o << p.sampleAction(s); }
+        try {
+            MDP::Policy p(m);                       // throws invalid_argument unless isProbability(m)
+            o << 0;
+            dumpTables(o, p, S, A);
+            for (size_t s = 0; s < S; ++s) { o << peekU(p.rand_); o << p.sampleAction(s); }
+        } catch (const std::invalid_argument &) { o << 1; }
     } else throw std::logic_error("kind not implemented: " + kind);
 }
